@@ -348,6 +348,16 @@ static ssize_t failing_read(void *c, char *buf, size_t size)
   return (ssize_t)n;
 }
 
+/* the same, but the failure is transient: one read fails with EIO, every later one reports end of file.  The failure
+ * happened all the same: the text is truncated and the read must report the I/O error (C09/C03) */
+static int failing_once_done;
+static ssize_t failing_once_read(void *c, char *buf, size_t size)
+{
+  struct chunked *k = c;
+  if (k->len == k->pos) { if (failing_once_done) return 0; failing_once_done = 1; errno = EIO; return -1; }
+  return failing_read(c, buf, size);
+}
+
 /* a stream whose <at>-th read call is interrupted by a signal (EINTR) before transferring anything: depending on
  * where that falls inside an fread() the library sees a retry or a short read with the error indicator set */
 struct eintr { const char *data; size_t len, pos, chunk; int calls, at; };
@@ -733,6 +743,15 @@ static int real_main(int argc, char **argv)
       size_t len; char *s = unhex(w[2], &len); struct chunked ck = { s, len, 0, (size_t)atol(w[1]) };
       cookie_io_functions_t io = { failing_read, NULL, NULL, NULL };
       FILE *f = fopencookie(&ck, "r", io);
+      if (ck.chunk % 2) setvbuf(f, NULL, _IONBF, 0);
+      { int r; cap_begin(); r = config_read(&cfg, f); cap_end(); do_read(r); } fclose(f); free(s);
+    }
+    else if (OP("read_stream_fail1", 3)) {
+      /* as read_stream_fail, but only ONE read fails (EIO); after it the stream reports end of file */
+      size_t len; char *s = unhex(w[2], &len); struct chunked ck = { s, len, 0, (size_t)atol(w[1]) };
+      cookie_io_functions_t io = { failing_once_read, NULL, NULL, NULL };
+      FILE *f = fopencookie(&ck, "r", io);
+      failing_once_done = 0;
       if (ck.chunk % 2) setvbuf(f, NULL, _IONBF, 0);
       { int r; cap_begin(); r = config_read(&cfg, f); cap_end(); do_read(r); } fclose(f); free(s);
     }
